@@ -708,3 +708,94 @@ fn mode_dist_step() {
     core::mem::forget(state);
     assert!(out[12] == 0 && out[13] == 0 && out[14] == 0 && out[15] == 0);
 }
+
+// ---- single step from Mode::Match, no bits/no input: Match(+) -> Len -> suspend
+#[kani::proof]
+#[kani::unwind(14)]
+#[kani::stub(crate::inflate::inftrees::inflate_table, stub_table)]
+#[kani::stub(core::fmt::write, stub_fmt_write)]
+#[kani::stub(core::panicking::panic_nounwind, stub_pn)]
+#[kani::stub(core::panicking::panic_nounwind_fmt, stub_pnf)]
+#[kani::stub(crate::inflate::inflate_fast_help, stub_fast)]
+fn mode_match_step() {
+    const CAP: usize = 12;
+    let init: [u8; CAP + 4] = kani::any();
+    let mut out = init;
+    let pre: usize = kani::any(); kani::assume(pre <= 6);
+    let n_out: usize = kani::any(); kani::assume(n_out >= pre && n_out <= CAP);
+    let wcontent: [u8; 8] = kani::any();
+    let mut win = [0u8; 8 + 64];
+    let mut k = 0; while k < 8 { win[k] = wcontent[k]; k += 1; }
+    let mut state = State::new(&[], Writer::new(&mut []));
+    state.window = unsafe { Window::from_raw_parts(win.as_mut_ptr(), win.len()) };
+    let have: usize = kani::any(); kani::assume(have <= 8);
+    unsafe { state.window.set_have(have) };   // next stays 0: "just wrapped" or empty window
+    state.wrap = 0; state.wbits = 15; state.mode = Mode::Match; state.dmax = 32768;
+    state.len_table = Table { codes: Codes::Fixed, bits: 9 };
+    state.dist_table = Table { codes: Codes::Fixed, bits: 5 };
+    let len: usize = kani::any(); kani::assume(len >= 1 && len <= 258);
+    let off: usize = kani::any(); kani::assume(off >= 1 && off <= 32768);
+    state.length = len; state.was = len; state.offset = off;
+    state.writer = unsafe { Writer::new_uninit_raw(out.as_mut_ptr(), pre, n_out) };
+    state.flush = InflateFlush::NoFlush;
+    let rc = state.dispatch();
+    let filled = state.writer.len();
+    let bad = matches!(state.mode, Mode::Bad);
+    let rest = state.length;
+    core::mem::forget(state);
+    assert!(matches!(rc, ReturnCode::Ok | ReturnCode::DataError));
+    // rejection exactly when the distance reaches before everything we have
+    assert!(bad == (off > pre + have));
+    if !bad {
+        assert!(filled - pre + rest == len);
+        assert!(filled == n_out || rest == 0);
+        let mut i = 0;
+        while i < CAP + 4 {
+            if i < pre || i >= n_out { assert!(out[i] == init[i]); }
+            else if i < filled {
+                // source: output itself or window tail (next == 0 => tail is win[have-d ..] when have==8, else win[..have])
+                if off <= i { assert!(out[i] == out[i - off]); }
+                else if have == 8 { let d = off - i; assert!(out[i] == wcontent[8 - d]); }
+            }
+            i += 1;
+        }
+    } else { assert!(rc == ReturnCode::DataError && filled == pre); }
+    kani::cover!(!bad && off > pre && rest == 0);
+    kani::cover!(bad);
+}
+
+// ---- inflateBack, concrete 20-bit prefix (final fixed block, literal 'a', length 3, dist code 11xxx), symbolic distance
+#[kani::proof]
+#[kani::unwind(8)]
+#[kani::stub(crate::inflate::inftrees::inflate_table, stub_table)]
+#[kani::stub(core::fmt::write, stub_fmt_write)]
+#[kani::stub(core::panicking::panic_nounwind, stub_pn)]
+#[kani::stub(core::panicking::panic_nounwind_fmt, stub_pnf)]
+fn infback_dist() {
+    // bits (LSB first): 1 | 01 | rev8(0x91) | rev7(1) | 11 ...
+    // 0x91 = 1001_0001 -> MSB-first emission means stream bits 1,0,0,1,0,0,0,1
+    // byte0 = bits0..7  : 1,1,0, 1,0,0,1,0  -> 0b0100_1011 = 0x4b
+    // byte1 = bits8..15 : 0,0,1, 0,0,0,0,0  -> 0b0000_0100 = 0x04   (literal tail 0,0,1 then code 257 = 0000001 -> 0,0,0,0,0 ...)
+    // byte2 = bits16..23: 0,1 (end of 0000001), 1,1 (dist code msb), s0..s3
+    let s: u8 = kani::any();
+    let b2: u8 = 0b0000_1110 | (s << 4);
+    let b3: u8 = kani::any();
+    let b4: u8 = kani::any();
+    let input: [u8; 5] = [0x4b, 0x04, b2, b3, b4];
+    let mut win = [0u8; 256];
+    let mut state = State::new(&[], Writer::new(&mut []));
+    state.window = unsafe { Window::from_raw_parts(win.as_mut_ptr(), 256) };
+    state.wbits = 8;
+    state.flags.update(Flags::SANE, true);
+    let mut desc = InDesc { ptr: input.as_ptr(), len: 5, given: false };
+    let mut strm = InflateStream {
+        next_in: core::ptr::null_mut(), avail_in: 0, total_in: 0,
+        next_out: core::ptr::null_mut(), avail_out: 0, total_out: 0,
+        msg: core::ptr::null_mut(), state: &mut state,
+        alloc: Allocator { zalloc: za, zfree: zf, opaque: core::ptr::null_mut(), _marker: PhantomData },
+        data_type: 0, adler: 0, reserved: 0,
+    };
+    let rc = unsafe { back(&mut strm, in_cb, &mut desc as *mut _ as *mut core::ffi::c_void, out_cb, core::ptr::null_mut()) };
+    assert!(matches!(rc, ReturnCode::StreamEnd | ReturnCode::DataError | ReturnCode::BufError));
+    core::mem::forget(strm);
+}
